@@ -287,6 +287,20 @@ def run_shard(spec, ctx, acc):
         core.hyp_search(acc, odd, check, seed=core.derive(ctx["seed"], PROP, "odd"),
                         max_examples=600 if tier == "quick" else 20000, known=known)
         acc.classes["odd-clsid"] += acc.evaluations - before
+        # keyword routes whose payload ends at / beyond what the 2-byte length field can
+        # express (text attribute, counted groups): refusal is fine, a malformed frame is not
+        big = [(0, b"\x04\x02", "INF-NOTICE", {"message": "A" * n}) for n in (65534, 65535, 65536, 65537, 70000, 131072)]
+        big += [(0, b"\x0a\x31", "MON-SPAN", {"version": 0, "numRfBlocks": n}) for n in (240, 241, 255)]
+        big += [(0, b"\x02\x72", "RXM-PMP-V1", {"version": 1, "numBytesUserData": n}) for n in (65510, 65511, 65512, 65535)]
+        big += [(0, b"\x01\x35", "NAV-SAT", {"numSvs": 255}), (0, b"\x02\x15", "RXM-RAWX", {"numMeas": 255})]
+        for mode_, ck_, dn_, kw_ in big:
+            if C.find_target(mode_, ck_, dn_) is None:
+                continue
+            case = {"kind": "build", "mode": mode_, "clsid": ck_, "route": "kw", "kwargs": kw_, "defname": dn_}
+            o = core.checked(check, case)
+            o.classes = list(o.classes) + ["kw-payload-at-length-limit"]
+            if core.handle(acc, o, case, known):
+                return
         # class/ID bytes that look like structure (sync characters, other protocols'
         # preambles, line ends), enumerated: empty and short payloads, every mode
         special = (0xB5, 0x62, 0x24, 0x47, 0xD3, 0x00, 0x0D, 0x0A, 0xFF)
